@@ -176,7 +176,8 @@ pub trait MassMatrixAdaptStrategy<M: Math>: Sized {
             // only the FOREGROUND window feeds the transformation
             r ==> forall|fg: Seq<Sample>, bg: Seq<Sample>| #[trigger] self.repr(fg, bg) ==> Self::estimated_from(final(mass_matrix).view(), fg),     // [C09.1]
             // no estimate below three samples
-            forall|fg: Seq<Sample>, bg: Seq<Sample>| #[trigger] self.repr(fg, bg) ==> r == (fg.len() >= 3),     // [C08.1]
+            // never re-estimates from fewer than three samples (an estimator may also decline later, e.g. a degenerate low-rank estimate)
+            forall|fg: Seq<Sample>, bg: Seq<Sample>| #[trigger] self.repr(fg, bg) ==> (fg.len() < 3 ==> !r),     // [C08.1]
             self.adapt_extra(old(mass_matrix), final(mass_matrix), r);
     fn init<R: Rng + ?Sized, VxImpl0: Point<M>>(&mut self, math: &mut M, options: &mut NutsOptions, mass_matrix: &mut Self::Transformation,
                                  point: &VxImpl0, rng: &mut R) -> (r: Result<(), NutsError>)
